@@ -43,7 +43,23 @@ func publishedSegments(h *muxrun.History) int {
 			n++
 		}
 	}
-	return n
+	if n > 0 || len(h.StreamIDs) == 0 {
+		return n
+	}
+	// playlists only (NoFetch): count distinct non-gap MSNs of the first stream
+	seen := map[int]bool{}
+	for _, r := range h.Rounds {
+		so := r.Streams[h.StreamIDs[0]]
+		if so == nil || so.PL == nil || so.PL.Media == nil {
+			continue
+		}
+		for _, s := range so.PL.Media.Segments {
+			if !s.Gap {
+				seen[s.MSN] = true
+			}
+		}
+	}
+	return len(seen)
 }
 
 func runMuxProp(p *muxProp, tier string, seed int64) int {
@@ -311,5 +327,46 @@ func init() {
 		rule:        "long histories (20-60 rotations quick, 50-400 thorough) in every variant; non-trivial = >= 3 published segments; window slides counted",
 		assumptions: stdAssumptions(),
 		floors:      map[string]int{"C04.streams_slid_2x": 20, "C04.hints_checked": 200, "cases.variant3": 5},
+	})
+	regMux(&muxProp{
+		id: "C16", oracle: oracle.C16, quick: 400, thorough: 12000,
+		gen: func(seed int64, idx int, tier string) (*media.Case, muxrun.Options) {
+			o := media.GenOpts{Profile: "mv", MaxWrites: 800}
+			if tier == "thorough" {
+				o.MaxWrites = 2500
+				o.MaxSegments = 16
+			}
+			return media.Gen(seed, idx, o), muxrun.Options{NoFetch: false}
+		},
+		rule:        "track lists of every order / codec / name / language / default combination the generator produces (0-1 video, 0-4 audio), with parameter changes; index.m3u8 checked after every Write; non-trivial = >= 3 published segments",
+		assumptions: stdAssumptions(),
+		floors:      map[string]int{"C16.multivariant_checked": 5000, "C16.renditions_checked": 1000, "C16.bandwidth_exact_checked": 500, "feature.paramchange": 10},
+	})
+	regMux(&muxProp{
+		id: "C18", oracle: oracle.C18, quick: 240, thorough: 3000,
+		gen: func(seed int64, idx int, tier string) (*media.Case, muxrun.Options) {
+			if idx%3 == 0 {
+				o := media.GenOpts{Profile: "size", MaxWrites: 1500}
+				return media.Gen(seed, idx, o), muxrun.Options{StopOnWriteErr: true}
+			}
+			o := media.GenOpts{Profile: "long", MinSegments: 20, MaxSegments: 80, MaxWrites: 6000}
+			if tier == "thorough" {
+				o.MinSegments, o.MaxSegments, o.MaxWrites = 100, 1500, 150000
+			}
+			return media.Gen(seed, idx, o), muxrun.Options{Light: true, RoundEvery: 4}
+		},
+		rule:        "two thirds long histories (20-80 rotations quick, 100-1500 thorough), one third small SegmentMaxSize with payloads straddling the limit; non-trivial = >= 3 published segments",
+		assumptions: stdAssumptions(),
+		floors:      map[string]int{"C18.path_counts_checked": 2000, "C18.dir_listings_checked": 500, "C18.expired_probed": 500, "C18.size_limit_hit": 10, "C18.segments_near_limit": 5},
+	})
+	regMux(&muxProp{
+		id: "C19", oracle: oracle.C19, quick: 400, thorough: 12000,
+		gen: func(seed int64, idx int, tier string) (*media.Case, muxrun.Options) {
+			o := media.GenOpts{Profile: "regular", MaxWrites: 3000}
+			return media.Gen(seed, idx, o), muxrun.Options{NoFetch: true}
+		},
+		rule:        "Low-Latency muxers whose leading track has one constant sample duration: frame rates 1-120 fps incl. 1001-based, AAC at all standard rates, Opus frame sizes x PartMinDuration 50 ms-2 s (also off the 5 ms grid) x SegmentMinDuration x key spacing; non-trivial = >= 3 published segments",
+		assumptions: stdAssumptions(),
+		floors:      map[string]int{"C19.streams_with_parts": 250, "C19.nonfinal_parts_checked": 5000},
 	})
 }
